@@ -10,7 +10,8 @@ RULE = ("the impl table (every `impl SecureRng for`, the bound of ChaCha::from_r
         "compositions of public types (Read<Random<G>>, Read<&mut Random<G>>, &mut G, Box<G>, Random<G>, Read over std readers) must be rejected; every impl header in the current source whose target is "
         "not a ChaCha/System generator is instantiated; every associated fn of a ChaCha type that takes a generator (inherent or through a trait impl) is called with unmarked generators and must be rejected; "
         "impl headers whose target is not a ChaCha/System generator are instantiated (lifetimes, consts, candidate types) into client programs that must be rejected; "
-        "accept/reject must equal what the property states. non-trivial = every probe; distinct = distinct probe source")
+        "accept/reject must equal what the property states. non-trivial = every probe; distinct = distinct probe source"
+        " Since round 9: probes for round counts nobody vetted (ChaCha<0>, <1>, <7>, <19>: the type exists, the marker must not).")
 TRUSTED = ["rustc's trait checking (the guarantee itself is enforced by the compiler)", "tools/extract.py (regex translation of impl headers; cross-checked by the probes)"]
 ASSUMPTIONS = ["the probes cover the generators exported from urandom::rng at the pinned commit plus one user-defined Rng; a newly added generator type would need a new probe"]
 
